@@ -7,3 +7,5 @@ import QlibcModel.Props.C02
 #print axioms Qlibc.Props.C02.check_agrees
 #print axioms Qlibc.Props.C02.height_bound
 #print axioms Qlibc.Props.C02.find_cost
+#print axioms Qlibc.Shapes.Tree.widths_as_modelled
+#print axioms Qlibc.Shapes.Tree.no_hidden_static_state
